@@ -67,7 +67,7 @@ ASSUMPTIONS = {
 EXPECTED_PROBES = {
     "C14": ["probe:hit_after_restart", "probe:hit_same_process", "probe:improved_overwrite_search", "probe:cache_only_refusal",
             "probe:cache_only_hit", "probe:shared_entry_allowed", "probe:sliced_entry_served", "step:update_from_tree",
-            "probe:hash_b_hit", "probe:shared_mutable_args"],
+            "probe:hash_b_hit", "probe:shared_mutable_args", "probe:caller_mutated_returned_tree"],
     "C15": ["crash:open", "crash:write-torn", "crash:mkdir", "outcome:old-entry-served", "outcome:new-entry-served",
             "outcome:searched-again", "probe:real_exit_crosscheck", "probe:second_crash", "probe:other_entries_checked"],
 }
@@ -291,7 +291,9 @@ def gen_case_c14(seed, tier):
         if r < 0.88 - p_restart:
             qi = 0 if (focus and ops_rng.random() < 0.75) else ops_rng.randrange(len(pool))
             steps.append({"step": "query", "q": qi, "via": ops_rng.choice(["search", "search", "call"]),
-                          "seed": ops_rng.randrange(2 ** 31)})
+                          "seed": ops_rng.randrange(2 ** 31),
+                          # what the caller does with the returned tree afterwards (it is theirs to modify)
+                          "mutate": ops_rng.choice([None, None, None, "remove_ind", "reconf"])})
         elif r < 0.88:
             steps.append({"step": "restart", "cfg": gen_cfg_changes()})
         else:
@@ -544,6 +546,18 @@ def run_case_c14(case):
                             # path only: we cannot tell the score; keep the better-known bound
                             new["score"] = None
                         model[hk] = new
+                if st["via"] == "search" and st.get("mutate") and res is not None:
+                    # the caller modifies ITS tree in place; the cache must not be affected
+                    try:
+                        if st["mutate"] == "remove_ind":
+                            free = [ix for ix in sorted(args[2]) if ix not in res.sliced_inds and any(ix in t for t in args[0])]
+                            if free:
+                                res.remove_ind_(free[st["seed"] % len(free)])
+                        else:
+                            res.subtree_reconfigure_(subtree_size=3, maxiter=2)
+                        counters["probe:caller_mutated_returned_tree"] += 1
+                    except Exception:
+                        pass
                 if stored_once:
                     states.add(prng.H(sorted(model), (cfg.get("overwrite"), cfg.get("cache_only"), cfg.get("directory_split"),
                                                      bool(cfg.get("slicing_opts"))), min(restarts, 4), kind_step, hit, st["via"]))
